@@ -528,11 +528,59 @@ def check(prop, tier):
     return res.finish()
 
 
-def write_bisim_cfg(wd):
+def write_bisim_cfg(wd, rest=True):
     with open(os.path.join(wd, "MC.tla"), "w") as f:
         f.write("---- MODULE MC ----\nEXTENDS MapperBisim\n====\n")
     with open(os.path.join(wd, "MC.cfg"), "w") as f:
-        f.write("SPECIFICATION Spec\nINVARIANT C06\nVIEW View\nPOSTCONDITION Stats\nCHECK_DEADLOCK FALSE\n")
+        f.write("SPECIFICATION Spec\nCONSTANTS\n  Rest = %s\nINVARIANT C06\nVIEW View\nPOSTCONDITION Stats\nCHECK_DEADLOCK FALSE\n" % ("TRUE" if rest else "FALSE"))
+
+
+# C12 ("... the mapper resumes as from a fresh start") one level down: the product construction of C06 restricted to switches through release_all
+C12_NAMES = {"C06-events-differ-from-fresh": "C12-mapper-answers-differ-from-fresh-after-release_all", "C06-repeat-differs-from-fresh": "C12-mapper-repeat-differs-from-fresh-after-release_all",
+             "C06-held-after-releaseall": "C12-mapper-holds-keys-after-release_all"}
+
+
+def bisim_pass(res, exe, wd, jobs, tier, prop, replay_file=None, rfile="", nshard_procs=None):
+    """tabulate + MapperBisim over the shards; violations go into res (or, for a replay, the exit code is returned as ('replay', code))."""
+    stats, shards = tabulate(exe, wd, jobs, 1 if replay_file else PROCS)
+    write_bisim_cfg(wd, rest=(prop == "C06"))
+    runs = [TlcRun(wd, "MC.tla", "MC.cfg", env={"TABLE": s, "REPLAY": rfile}, name="s%d" % i, timeout=1500 if tier == "quick" else 7200)
+            for i, s in enumerate(shards)]
+    t0 = time.time()
+    run_tlc_many(runs)
+    log("[tlc] product with a fresh mapper: %d processes, %.1fs" % (len(runs), time.time() - t0))
+    gen = dist = 0
+    counters = [0, 0, 0]
+    for r, shard in zip(runs, shards):
+        g, d = r.counts()
+        gen += g
+        dist += d
+        for line in r.printed("COUNTERS"):
+            for i, x in enumerate(parse_tla_value(line)[1]):
+                counters[i] += x
+        err = r.other_error()
+        if err:
+            res.tool_errors.append("%s: %s" % (r.name, err))
+            continue
+        if r.invariant_violated():
+            states = r.cex_states()
+            li = states[0]["li"]
+            hist = [s["last"] for s in states[1:]]
+            hdr = shard_header(shard)[li - 1]
+            job = next((j for j in json.load(open(os.path.join(wd, "jobs.json")))["jobs"] if j["id"] == hdr["id"]), None)
+            names = sorted(states[-1].get("bad", []))
+            if prop != "C06":
+                names = [C12_NAMES.get(n, n) for n in names]
+            clause = ",".join(names) or prop
+            if replay_file:
+                for o in bisim_observed(shard, li, hist):
+                    log("  " + json.dumps(o))
+                log("VIOLATION property=%s replay=%s clause=%s" % (prop, replay_file, clause))
+                return ("replay", 1)
+            res.violation(clause, {"engine": "E1-mapper-bisimulation", "layout_id": hdr["id"], "job": job, "layout": hdr["layout"],
+                                   "keys": hdr["keys"], "maxheld": hdr["maxheld"], "history": hist,
+                                   "observed": bisim_observed(shard, li, hist)})
+    return {"gen": gen, "dist": dist, "counters": counters, "stats": stats, "shards": shards}
 
 
 def bisim_observed(shard, li, hist):
@@ -565,8 +613,7 @@ def bisim_observed(shard, li, hist):
     return out
 
 
-def check_c06(tier, replay_file=None):
-    prop = "C06"
+def check_c06(tier, replay_file=None, prop="C06"):
     if replay_file and json.load(open(replay_file)).get("engine") in ("E2-loop-trace", "E2-loop-walk"):
         import e2
         return e2.check(prop, tier, replay_file)
@@ -577,60 +624,26 @@ def check_c06(tier, replay_file=None):
         if replay_file:
             rp = json.load(open(replay_file))
             jobs = [rp.get("job") or {"id": rp["layout_id"], "layout": rp["layout"], "keys": rp["keys"], "maxheld": rp["maxheld"]}]
-            stats, shards = tabulate(exe, wd, jobs, 1)
             rfile = os.path.join(wd, "replay.ndjson")
             write_ndjson(rfile, [{"li": 1, "history": rp["history"]}])
-        else:
-            thorough = tier == "thorough"
-            sz = SIZES[tier]
-            builtins = [json.loads(l) for l in run_tmv(exe, ["builtins"]).splitlines() if l.strip()]
-            jobs = F.builtin_jobs(builtins, thorough) + F.readme_jobs() + [F.job("empty", [])] + \
-                F.small_family("all", F.anyl, sz["per_pair"], sz["n_triples"], seed() if thorough else None, sz["extra_pairs"], sz["extra_triples"]) + \
-                F.small_family("abs", F.has_abs, 1, 100 if not thorough else 800, None, 0, 0, ones=False) + abs_extra(thorough) + F.abs_cross(every=1 if thorough else 2) + F.modifier_table()
-            if not thorough:
-                jobs = [j for j in jobs if not j["id"].startswith("builtin-super-dvorak-1")]
-            stats, shards = tabulate(exe, wd, jobs, PROCS)
-            rfile = ""
-        write_bisim_cfg(wd)
-        runs = [TlcRun(wd, "MC.tla", "MC.cfg", env={"TABLE": s, "REPLAY": rfile}, name="s%d" % i, timeout=1500 if tier == "quick" else 7200)
-                for i, s in enumerate(shards)]
-        t0 = time.time()
-        run_tlc_many(runs)
-        log("[tlc] %d processes, %.1fs" % (len(runs), time.time() - t0))
-        gen = dist = 0
-        counters = [0, 0, 0]
-        for r, shard in zip(runs, shards):
-            g, d = r.counts()
-            gen += g
-            dist += d
-            for line in r.printed("COUNTERS"):
-                for i, x in enumerate(parse_tla_value(line)[1]):
-                    counters[i] += x
-            err = r.other_error()
-            if err:
-                res.tool_errors.append("%s: %s" % (r.name, err))
-                continue
-            if r.invariant_violated():
-                states = r.cex_states()
-                li = states[0]["li"]
-                hist = [s["last"] for s in states[1:]]
-                hdr = shard_header(shard)[li - 1]
-                job = next((j for j in json.load(open(os.path.join(wd, "jobs.json")))["jobs"] if j["id"] == hdr["id"]), None)
-                clause = ",".join(sorted(states[-1].get("bad", []))) or "C06"
-                if replay_file:
-                    for o in bisim_observed(shard, li, hist):
-                        log("  " + json.dumps(o))
-                    log("VIOLATION property=C06 replay=%s clause=%s" % (replay_file, clause))
-                    return 1
-                res.violation(clause, {"engine": "E1-mapper-bisimulation", "layout_id": hdr["id"], "job": job, "layout": hdr["layout"],
-                                       "keys": hdr["keys"], "maxheld": hdr["maxheld"], "history": hist,
-                                       "observed": bisim_observed(shard, li, hist)})
-        if replay_file:
+            out = bisim_pass(res, exe, wd, jobs, tier, prop, replay_file, rfile)
+            if isinstance(out, tuple):
+                return out[1]
             if res.tool_errors:
                 log("TOOL-ERROR: " + res.tool_errors[0])
                 return 2
-            log("replay: C06 holds on this history with the current tree")
+            log("replay: %s holds on this history with the current tree" % prop)
             return 0
+        thorough = tier == "thorough"
+        sz = SIZES[tier]
+        builtins = [json.loads(l) for l in run_tmv(exe, ["builtins"]).splitlines() if l.strip()]
+        jobs = F.builtin_jobs(builtins, thorough) + F.readme_jobs() + [F.job("empty", [])] + \
+            F.small_family("all", F.anyl, sz["per_pair"], sz["n_triples"], seed() if thorough else None, sz["extra_pairs"], sz["extra_triples"]) + \
+            F.small_family("abs", F.has_abs, 1, 100 if not thorough else 800, None, 0, 0, ones=False) + abs_extra(thorough) + F.abs_cross(every=1 if thorough else 2) + F.modifier_table()
+        if not thorough:
+            jobs = [j for j in jobs if not j["id"].startswith("builtin-super-dvorak-1")]
+        out = bisim_pass(res, exe, wd, jobs, tier, prop)
+        gen, dist, counters, stats, shards = out["gen"], out["dist"], out["counters"], out["stats"], out["shards"]
         samples = [w for w in (sample_walk(shards[si], 1, salt=si) for si in (0, len(shards) - 1)) if w]
         res.coverage = {
             "states": dist, "transitions": gen, "traces_validated_against_impl": counters[0], "samples": samples,
@@ -651,6 +664,19 @@ def check_c06(tier, replay_file=None):
     except ToolError as e:
         res.tool_errors.append(str(e))
     return res.finish()
+
+
+def mapper_level_c12(res, exe, wd, tier):
+    """C12's "resumes as from a fresh start" at the mapper: the product construction with switches through release_all only, on the layouts where
+    state can be left behind (absorbing mappings, several on one modifier; Special and Disabled repeats)."""
+    thorough = tier == "thorough"
+    jobs = F.small_family("abs", F.has_abs, 1, 60 if not thorough else 600, None, 0, 0, ones=False) + abs_extra(thorough) + F.abs_cross(every=1 if thorough else 4) + \
+        F.small_family("special", F.has_special, 1, 30 if not thorough else 300, None, 0, 0, ones=False)
+    out = bisim_pass(res, exe, wd, jobs, tier, "C12")
+    c = out["counters"]
+    if not res.tool_errors and (c[0] == 0 or c[2] == 0):
+        res.tool_errors.append("vacuous mapper-level run: counters %s" % c)
+    return {"mapper_level_layouts": out["stats"]["layouts"], "mapper_level_switches_by_release_all": c[2], "mapper_level_product_steps_compared": c[0], "mapper_level_states": out["dist"]}
 
 
 def replay(prop, path):
